@@ -320,28 +320,46 @@ func execA(c caseA) (st stats, err error) {
 				return st, fmt.Errorf("%s: ListParts IsTruncated=%v with %d of %d parts returned", where, lp.IsTruncated, len(want), len(nums))
 			}
 		case "listuploads":
-			q := s3c.Q("uploads", "")
-			r, err := cl.Call("GET", "/"+b, q, nil, nil)
-			if err != nil {
-				return st, fmt.Errorf("SETUP: transport: %v", err)
-			}
-			if !r.OK() {
-				return st, fmt.Errorf("%s: ListMultipartUploads answers %v", where, r)
-			}
-			var lu s3c.ListUploadsResult
-			if err := s3c.ParseXML(r, &lu); err != nil {
-				return st, fmt.Errorf("%s: unparsable ListMultipartUploads: %q", where, r.Body)
-			}
+			// one page, or a walk in pages of max-uploads following the next markers: either way
+			// exactly the uploads in progress, each once
 			want := map[string]string{}
 			for _, u := range open() {
 				want[u.ID] = keyNames[u.Key]
 			}
 			got := map[string]string{}
-			for _, u := range lu.Uploads {
-				if _, dup := got[u.UploadId]; dup {
-					return st, fmt.Errorf("%s: upload %s listed twice", where, u.UploadId)
+			km, um := "", ""
+			for page := 0; ; page++ {
+				q := s3c.Q("uploads", "")
+				if o.Max != "" {
+					q = append(q, s3c.KV{K: "max-uploads", V: o.Max})
 				}
-				got[u.UploadId] = u.Key
+				if km != "" {
+					q = append(q, s3c.KV{K: "key-marker", V: km}, s3c.KV{K: "upload-id-marker", V: um})
+				}
+				r, err := cl.Call("GET", "/"+b, q, nil, nil)
+				if err != nil {
+					return st, fmt.Errorf("SETUP: transport: %v", err)
+				}
+				if !r.OK() {
+					return st, fmt.Errorf("%s: ListMultipartUploads (page %d, markers %q %q) answers %v", where, page, km, um, r)
+				}
+				var lu s3c.ListUploadsResult
+				if err := s3c.ParseXML(r, &lu); err != nil {
+					return st, fmt.Errorf("%s: unparsable ListMultipartUploads: %q", where, r.Body)
+				}
+				for _, u := range lu.Uploads {
+					if _, dup := got[u.UploadId]; dup {
+						return st, fmt.Errorf("%s: upload %s listed twice (page %d of max-uploads=%q)", where, u.UploadId, page, o.Max)
+					}
+					got[u.UploadId] = u.Key
+				}
+				if !lu.IsTruncated {
+					break
+				}
+				if o.Max == "" || len(lu.Uploads) == 0 || lu.NextKeyMarker == "" || page > len(want)+2 {
+					return st, fmt.Errorf("%s: ListMultipartUploads page %d (max-uploads=%q) is truncated with %d uploads and next markers %q %q; in progress are %v", where, page, o.Max, len(lu.Uploads), lu.NextKeyMarker, lu.NextUploadIdMarker, want)
+				}
+				km, um = lu.NextKeyMarker, lu.NextUploadIdMarker
 			}
 			if fmt.Sprint(got) != fmt.Sprint(want) {
 				return st, fmt.Errorf("%s: ListMultipartUploads shows %v, in progress are %v", where, got, want)
@@ -572,6 +590,8 @@ func opGen() *rapid.Generator[op] {
 				rapid.SampledFrom([][]int{{1}, {1, 2}, {1, 2, 3}, {2}, {1, 3}, {2, 1}, {1, 1}, {2, 3}, {1, 2, 3, 4}, {3}, {10000}, {1, 10000}, {}}),
 				rapid.SliceOfN(rapid.IntRange(1, 5), 0, 4)).Draw(t, "select")
 			o.ETagOf = rapid.SampledFrom([]string{"current", "current", "current", "stale", "foreign", "quoted", "missing"}).Draw(t, "etag_of")
+		case "listuploads":
+			o.Max = rapid.SampledFrom([]string{"", "1", "1", "2", "3", "1000"}).Draw(t, "max_uploads")
 		case "listparts":
 			o.Max = rapid.SampledFrom([]string{"", "", "1", "2", "1000"}).Draw(t, "max")
 			o.Marker = rapid.SampledFrom([]string{"", "", "1", "2", "9999"}).Draw(t, "marker")
